@@ -73,11 +73,11 @@ Definition model_out (c : case) : Z * list Z :=
   else if t =? 44 then
     out_of (handle_reconfig (aux_n c 0) bs) (fun x => flat_map (fun a => [fst a; snd a]) (fst x))
   else if t =? 45 then
-    (* a DCEP message in a DATA chunk that is next in sequence: digest = [ack sent; cumulative TSN advanced];
-       an unmarshal error makes handle_data return early, before the cumulative TSN is stored *)
+    (* a complete (B+E) DCEP message in a DATA chunk that is next in sequence: digest = [ack sent; cumulative TSN
+       advanced]; since 412d9a4 a message that does not parse is dropped and the chunk is acknowledged all the same *)
     match val (handle_dcep bs) with
     | Ok ack => (0, [ack; 1])
-    | Err _ => (0, [0; 0])
+    | Err _ => (0, [0; 1])
     | r => (verdict r, [])
     end
   else if t =? 46 then
